@@ -729,6 +729,7 @@ class Engine(object):
     table = self.tables[table_id]
     col = table.get_column(col_id)
     checkpoint = self._get_undo_checkpoint()
+    auto_removes = self.docmodel.get_auto_removes()
     # Makes calls to REQUEST synchronous, since raising a RequestingError can't work here.
     self._sync_request = True
     try:
@@ -739,6 +740,9 @@ class Engine(object):
       # processed (e.g. don't get applied to DocStorage), so it's important to reverse them.
       self._sync_request = False
       self._undo_to_checkpoint(checkpoint)
+      # Likewise forget records the evaluation marked for automatic removal (a summary table's
+      # 'group' formula does that); the record here may even be a stand-in (AttributeRecorder).
+      self.docmodel.restore_auto_removes(auto_removes)
 
   def _recompute(self, node, row_ids=None):
     """
